@@ -21,9 +21,9 @@ func C02(c *core.Ctx) {
 		"the operator is not weaker-than-strict where the schema is strict and not the other direction, and a limit that was rounded before printing pairs with the operator that makes it exact for fractional limits " +
 		"(value < ceil(b) = value <= floor(b) is the reject set of both value < b and value <= b). B-SIZED: with --min-sized-ints the chosen integer type holds every " +
 		"admitted value in every cell of the width table (region-domain interpretation, shared with C15). B-LAYOUT: in pkg/types each MarshalJSON prints with the layout constant its sibling UnmarshalJSON parses " +
-		"with, on every return path. B-ADDPROPS: both emitters delete the declared keys from the raw map before collecting the remainder. " +
+		"with, on every return path. B-ADDPROPS: both emitters delete the declared keys from the raw map before collecting the remainder; A-SHADOW: in the emitted block the declared keys are enumerated by reflection over the shadow type of the decoded value, also when the schema declares a type of that very name. " +
 		"Not decided: value equality after a round trip, numeric precision, RFC 3339 conformance of the layouts, encoding/json's case-insensitive key matching — runtime quantities."
-	rules := ruleSet("A-TAG", "A-MAP", "A-NOEXTRA", "A-OVERREJ")
+	rules := ruleSet("A-TAG", "A-MAP", "A-NOEXTRA", "A-OVERREJ", "A-SHADOW")
 	d := gen.DefaultConfig()
 	j := d
 	j.Tags = []string{"json"}
@@ -48,6 +48,11 @@ func C02(c *core.Ctx) {
 						if is.Rule == "A-NOEXTRA" && strings.Contains(is.Msg, "Items") {
 							continue
 						}
+						keep = append(keep, is)
+					}
+				}
+				for _, is := range fam.MethodIssues(fm) {
+					if is.Rule == "A-SHADOW" {
 						keep = append(keep, is)
 					}
 				}
